@@ -156,9 +156,9 @@ def census_operators(ctx, model):
     # a local closure may only be handed to a known synchronous higher-order function
     CALL_OK = ("std::", "core::", "alloc::", "arc_swap::", "never::", "combine::Unwrap::unwrap", "combine::Combine::combine",
                "combine::IntoArcSource::")
-    HOF_OK = ("std::iter::Iterator::position", "std::iter::Iterator::map", "std::iter::Iterator::collect", "std::vec::Vec::<T, A>::resize_with",
-              "std::option::Option::<T>::map", "std::iter::IntoIterator::into_iter", "std::iter::Iterator::any", "std::iter::Iterator::all",
-              "std::iter::Iterator::find", "std::iter::Iterator::filter", "std::iter::Iterator::count", "std::iter::Iterator::rposition",
+    HOF_OK = ("std::iter::Iterator::position", "std::iter::Iterator::map", "std::iter::Iterator::collect", "std::vec::Vec::<T, A>::resize_with", "std::iter::repeat_with",
+              "std::option::Option::<T>::map", "core::bool::<impl bool>::then", "std::iter::IntoIterator::into_iter", "std::iter::Iterator::any", "std::iter::Iterator::all",
+              "std::iter::Iterator::find", "std::iter::Iterator::filter", "std::iter::Iterator::filter_map", "std::iter::Iterator::count", "std::iter::Iterator::rposition",
               "std::vec::Vec::<T, A>::retain", "std::option::Option::<T>::filter", "std::option::Option::<T>::and_then",
               "std::option::Option::<T>::map_or", "std::option::Option::<T>::is_some_and", "std::option::Option::<T>::unwrap_or_else",
               "std::iter::Iterator::enumerate", "std::iter::Iterator::zip", "std::iter::Iterator::skip", "std::iter::Iterator::take")
